@@ -170,9 +170,9 @@ def run_coq_cases(build_dir: Path, prefix: str, cases: list[dict], kind="case", 
         still = []
         for name, start, p in running:
             if block or p.poll() is not None:
-                out = p.communicate()[0]
-                if p.returncode != 0:
-                    errors.append(f"{name}: coqc exit {p.returncode}: {out[-1500:]}")
+                rc, out = common.coq_result(build_dir, name, p)
+                if rc != 0:
+                    errors.append(f"{name}: coqc exit {rc}: {out[-1500:]}")
                 else:
                     failing.extend(start + i for i in common.parse_nat_list(out))
                 for ext in (".v", ".vo", ".vok", ".vos"):
